@@ -230,7 +230,18 @@ func Upgrade8To10(old, new string, logger *log.Logger) (retErr error) {
 			return fmt.Errorf("reading upgrade plan: %w", err)
 		}
 		vhook.Trace(new, "up810.resume")
-		if err := p.Execute(plan.NewExecutor()); err != nil {
+		if fsutil.DirExists(new) {
+			// The plan's rename has already moved the upgraded directory into place.
+			// Executing the plan again would recreate the temporary directory and then
+			// fail to rename it over the new directory (or fail to copy from an old
+			// directory that is already partly removed), so just finish the clean-up.
+			if err := os.RemoveAll(tmpName(new)); err != nil {
+				return fmt.Errorf("failed to remove temporary snapshot directory %s: %w", tmpName(new), err)
+			}
+			if err := os.RemoveAll(old); err != nil {
+				return fmt.Errorf("failed to remove old snapshot directory %s: %w", old, err)
+			}
+		} else if err := p.Execute(plan.NewExecutor()); err != nil {
 			return fmt.Errorf("executing resumed upgrade plan: %w", err)
 		}
 		os.Remove(planPath)
